@@ -22,10 +22,11 @@ def run(tier):
     # 2. every transition of the sequential model replayed on the real breaker
     r = bc.tlc_with_cfg("MCBreaker", bc.gen_cfg_text([1], "CfgAll", False), "gen.cfg", workers=8, timeout=900)
     scripts, ntr = bc.scripts_from_transitions(r, prefix="seq")
-    tp = bc.replay(binp, scripts, sd, "seq")
+    tp = bc.replay(binp, scripts, sd, "seq", full=True)
     chk.cov["traces_validated_against_impl"] += len(scripts)
     chk.cov["replayed_transitions_sequential"] = ntr
     bc.judge(chk, tp, scripts, CLAUSES)
+    bc.conformance(chk, tp, "sequential replay")
     chk.sample({"script": scripts[0]["id"], "cf": scripts[0]["cf"], "steps": scripts[0]["steps"][:12],
                 "events": bc.segment(tp, scripts[0]["id"])[:12]})
 
@@ -43,10 +44,11 @@ def run(tier):
             continue
         r = bc.tlc_with_cfg("MCBreaker", bc.gen_cfg_text(callers, cs, False), "gen.cfg", workers=8, timeout=1800)
         scripts, ntr = bc.scripts_from_transitions(r, prefix="conc" + nm)
-        tp = bc.replay(binp, scripts, sd, "conc" + nm)
+        tp = bc.replay(binp, scripts, sd, "conc" + nm, full=True)
         chk.cov["traces_validated_against_impl"] += len(scripts)
         chk.cov["replayed_transitions_" + nm] = ntr
         bc.judge(chk, tp, scripts, CLAUSES, concurrent=True)
+        bc.conformance(chk, tp, "gate-scheduled replay " + nm)
         chk.sample({"script": scripts[-1]["id"], "cf": scripts[-1]["cf"], "steps": scripts[-1]["steps"][:16]})
     system_level(chk, sd)
     chk.cov["exhaustive"] = True
